@@ -62,12 +62,19 @@ STMTS = [
     ("h::{[-1 2]:^x}", ["h"]),
     ("r::h(a,a)", ["r"]),
     ("r::h(a)", ["r"]),
+    # amend-in-depth on a matrix of strings (object rows), result used / discarded
+    ("w::[[\"a\" \"b\"] [\"c\" \"d\"]]", ["w"]),
+    ("w:-\"r\",[0 1]", []),
+    ("v::w:-\"r\",[1 0]", ["v"]),
+    # a call that fails part-way (the local a shadows the global a while it runs)
+    ("bad::{[a];a::x*2;[1 2]@a}", ["bad"]),
+    ("r::bad(p)", ["r"]),
     # module switches: the parser qualifies names while a module is open; the same text may be evaluated repeatedly
     (".module(:mm)", []),
     (".module(0)", []),
     ("u::p", ["u"]),
 ]
-NAMES = ["a", "b", "c", "d", "e", "f", "g", "h", "m", "p", "r", "s", "u", "u`mm"]
+NAMES = ["a", "b", "c", "d", "e", "f", "g", "h", "m", "p", "r", "s", "u", "u`mm", "v", "w", "bad"]
 
 
 def _copy(v, memo):
@@ -210,6 +217,8 @@ def history(s1: int, s2: int, s3: int, s4: int, p1: int, p2: int) -> bool:
             post_a = _canon_state(_state(A)); post_b = _canon_state(_state(B))
             if post_a != post_b:
                 return verdict(False)
+            if not text.startswith(".module") and post_a["__scopes__"] != pre_c["__scopes__"]:
+                return verdict(False)             # only a module switch may change the shape of the scope stack (no frame left behind)
             for n, v in pre_c.items():
                 if n.startswith("__"):
                     continue
